@@ -20,6 +20,9 @@ For both protocols:
                    = as_bytes`.
 * `ars_trailer_sites` … `ars_straddle_device_user`: where the trailer octets `10 80` can occur across item
                    boundaries of a serialised registration, and the round trip on exactly those messages.
+* `ars_nested_lv_device`, `ars_interleaved_nul_valid`: values that read as another structure of the protocol
+                   (an identifier that is its own length-value form, whose length octet equals a header) or as
+                   text in another encoding (ASCII separated by NULs) are identifiers like any other.
 Text, addresses and identifiers are opaque octet strings; Python's UTF-8 / UTF-16-LE codecs are
 trusted (identifiers are assumed to be what `str.encode("utf-8")` yields: well-formed UTF-8).
 -/
@@ -426,5 +429,85 @@ example : ∀ x ∈ ([([0x0D, 0x00, 0x0A], 0, none, [0x61, 0]), ([], 13, none, [
       (Tms.asBytes ⟨⟨false, ack, false, .text⟩, x.1, none, some x.2.1, x.2.2.1, some x.2.2.2⟩).toOption.bind
         (fun bs => (Tms.fromBytes bs).toOption.map (fun q => (q.address, q.seq, q.message, (Tms.asBytes q).toOption == some bs)))
         = some (x.1, some x.2.1, some x.2.2.2, true) := by decide +kernel
+
+/-! ### a value that reads as ANOTHER structure of the protocol, or as text in another encoding (round 4)
+
+The format has no way to tell such a value from any other: the presence of the registration header is
+said by the has-more flag alone, identifiers are opaque octets.  The theorems build the input classes
+from parts and state the round trip on exactly those messages. -/
+
+theorem validUtf8_ascii_cons (b : Nat) (rest : Bytes) (h : b < 0x80) :
+    Ars.validUtf8 (b :: rest) = Ars.validUtf8 rest := by
+  rcases rest with _ | ⟨b1, _ | ⟨b2, _ | ⟨b3, r⟩⟩⟩ <;> simp [Ars.validUtf8, h]
+
+/-- ASCII characters separated by NULs (what UTF-16-LE text of ASCII characters looks like) are
+well-formed UTF-8: such a value is an identifier like any other -/
+theorem ars_interleaved_nul_valid (cs : Bytes) (h : ∀ c ∈ cs, c < 0x80) :
+    Ars.validUtf8 (cs.flatMap fun c => [c, 0]) = true := by
+  induction cs with
+  | nil => rfl
+  | cons c r ih =>
+    have hc : c < 0x80 := h c (by simp)
+    have := ih (fun x hx => h x (by simp [hx]))
+    simp only [List.flatMap_cons, List.cons_append, List.nil_append]
+    rw [validUtf8_ascii_cons _ _ hc, validUtf8_ascii_cons _ _ (by decide)]
+    exact this
+
+/-- the input class of C16-G, built from parts: ANY flags with the has-more flag CLEAR, a device
+identifier that is its own length-value form (first octet = number of octets that follow), ANY user
+identifier and password, with or without trailer.  Whatever the lengths are — in particular when the
+identifier's length octet `rest.length + 1` equals a registration header (0x20, 0x40) — the octet behind
+the first header is that length, the parsed message has NO registration header, the identifier comes
+back with its first octet, and the octets re-serialise -/
+theorem ars_nested_lv_device (hd : Ars.FirstHeader) (rest u w : Bytes) (csbk : Bool)
+    (ht : hd.ptype.isReg = true) (hm : hd.more = false)
+    (h1 : Ars.validUtf8 (rest.length :: rest) = true) (l1 : rest.length ≤ 254)
+    (h2 : Ars.validUtf8 u = true) (l2 : u.length ≤ 255)
+    (h3 : Ars.validUtf8 w = true) (l3 : w.length ≤ 255) :
+    ∃ bs q, Ars.asBytes ⟨hd, none, none, some (rest.length :: rest), some u, some w, csbk⟩ = .ok bs ∧
+      bs[3]? = some (rest.length + 1) ∧ bs[4]? = some rest.length ∧
+      Ars.fromBytes bs = .ok q ∧ q.header = hd ∧ q.rrh = none ∧ q.device = some (rest.length :: rest) ∧
+      q.user = some u ∧ q.password = some w ∧ q.csbk = csbk ∧ Ars.asBytes q = .ok bs := by
+  have hwf : Ars.wf ⟨hd, none, none, some (rest.length :: rest), some u, some w, csbk⟩ = true := by
+    obtain ⟨m, a, p, c, t⟩ := hd
+    simp only at hm; subst hm
+    have hd' : Ars.okId (some (rest.length :: rest)) = true := by simp [Ars.okId, h1]; omega
+    have hu : Ars.okId (some u) = true := by simp [Ars.okId, h2]; omega
+    have hw : Ars.okId (some w) = true := by simp [Ars.okId, h3]; omega
+    cases t <;> simp [Ars.PduType.isReg] at ht <;> simp [Ars.wf, hd', hu, hw]
+  obtain ⟨bs, hb⟩ := Ars.asBytes_total _ hwf
+  have hdec := Ars.dec_enc _ hwf bs hb
+  have hre := Ars.reencode _ hwf
+  obtain ⟨hbyte, b, -, hbody, -, hshape⟩ := Ars.asBytes_shape _ bs hb
+  obtain ⟨r, hr, -, -, -, -, -, -, hbody'⟩ := Ars.body_reg _ hwf ht
+  simp only [hm] at hr
+  subst hr
+  rw [hbody] at hbody'
+  injection hbody' with hbody'
+  refine ⟨bs, _, hb, ?_, ?_, hdec, ?_, ?_, ?_, ?_, ?_, ?_, by rw [hre]; exact hb⟩
+  · subst hshape hbody'; simp
+  · subst hshape hbody'; simp
+  all_goals
+    obtain ⟨m, a, p, c, t⟩ := hd
+    simp only at hm; subst hm
+    cases t <;> simp [Ars.PduType.isReg] at ht <;> simp [Ars.norm, Ars.normId]
+
+/-- kernel-checked instances: the inputs of the seeded changes C16-G (device identifier of 32 octets whose first
+character is U+001F, no flag, empty user / password, with trailer: the octets behind the first header read `20 1F …`
+like an INITIAL registration header followed by a 31-octet identifier) and C16-H (device identifier `4 NUL 7 NUL 1 NUL 1
+NUL`, the UTF-16-LE octets of "4711") parse back to exactly the fields they were built from -/
+def exNested : Ars.Msg := ⟨⟨false, false, false, false, .devReg⟩, none, none,
+  some (0x1F :: List.replicate 31 0x72), some [], some [], true⟩
+
+def exUtf16 : Ars.Msg := ⟨⟨false, false, false, false, .userReg⟩, none, none,
+  some [0x34, 0, 0x37, 0, 0x31, 0, 0x31, 0], some [], some [], false⟩
+
+example : Ars.wf exNested = true ∧
+    (Ars.asBytes exNested).toOption = some ([0, 0x26, 0x00, 0x20, 0x1F] ++ List.replicate 31 0x72 ++ [0, 0, 0x10, 0x80]) ∧
+    (Ars.asBytes exNested).toOption.bind (fun bs => (Ars.fromBytes bs).toOption) = some exNested := by decide +kernel
+
+example : Ars.wf exUtf16 = true ∧
+    (Ars.asBytes exUtf16).toOption = some [0, 0x0C, 0x05, 8, 0x34, 0, 0x37, 0, 0x31, 0, 0x31, 0, 0, 0] ∧
+    (Ars.asBytes exUtf16).toOption.bind (fun bs => (Ars.fromBytes bs).toOption) = some exUtf16 := by decide +kernel
 
 end Dmr.C16
